@@ -49,7 +49,8 @@ TRUSTED = [
     "*inputs* of the model (measured per case); the theorems assume nothing about them",
     "CPython struct (little-endian pack/unpack), memoryview slice assignment, multiprocessing.shared_memory",
     "struct.error for table values that do not fit <I / <Q is not modelled (unreachable below 2^64-byte segments: C28_reachable)",
-    "single active side at a time (the lockstep protocol): no concurrent mutation of the header is modelled",
+    "single active side at a time (the lockstep protocol): no concurrent mutation of the header is modelled; several "
+    "handles used in turn are (the model's state is the header bytes only, and extraction pins that ShmAllocator keeps none)",
 ]
 RULE = (
     "exhaustive DFS over all op sequences (alloc of 1..S units, free of every unit-aligned offset, reset) up to depth D on "
@@ -58,7 +59,10 @@ RULE = (
     "allocator-level run the first 256 data bytes sit behind the header and the bytes of live regions are compared after "
     "each call; tables at MAX-1 / MAX / MAX+1 entries (packed header, three region strides) and real ShmSegments filled to "
     "the limit by genuine calls with a real batch at the start of the data region, every live region's bytes compared "
-    "after each allocate / allocate_and_write / free around the limit; real ShmSegment writes of generated batches (narrow, 50..2000 columns, 1K..256K schema / field "
+    "after each allocate / allocate_and_write / free around the limit; whole segment sessions (15-45 calls: writes of a "
+    "few recurring batch sizes, frees in any order, raw allocations, resets) through one or two handles on the same segment "
+    "(create + attach, incl. peer turns that leave the entry count unchanged), every live batch checked after every call "
+    "to lie inside its own table entry and to be unchanged; real ShmSegment writes of generated batches (narrow, 50..2000 columns, 1K..256K schema / field "
     "metadata, dictionary columns, slices) into a hole of exactly the estimated size between two live batches, at the "
     "tight end of a segment, and into an empty segment; raw _ShmSink write sequences incl. after a refusal. A case is "
     "distinct by (total, header bytes, op) resp. (layout, batch description); non-trivial when the op reaches the allocator"
@@ -371,6 +375,153 @@ def near_limit(ctx: Any, rng: Any, pending: list) -> None:
             res = step_case(ctx, al, op, pending, tags, stale=1)
             ctx.tag(f"limit:{_res_tag(res)}:{len(parse_header(al.raw))}")
         flush(ctx, pending)
+
+
+def session_case(ctx: Any, seed: int) -> None:
+    """A whole life of one real segment: `allocate_and_write` of batches of a few recurring sizes (so holes smaller than an
+    estimate but larger than a written stream exist), frees in any order, raw allocations, resets — issued through ONE or
+    TWO handles on the same segment (`create` + `attach`), including peer turns (free one + write one) that leave the entry
+    count as it was.  After every call: the table invariant; every live batch lies inside a table entry that starts at
+    its offset and is byte-identical to what was written; the table's offsets are exactly the live ones.  K: every call
+    against the model, whose only state is the header bytes."""
+    import random
+
+    from vgi_rpc import shm
+
+    rng = random.Random(seed)
+    two = rng.random() < 0.67
+    pool = [
+        {"seed": 1, "rows": rng.choice([40, 100]), "cols": 2, "types": "int64", "tag": "narrow"},
+        {"seed": 2, "rows": rng.choice([300, 500, 1000]), "cols": 2, "types": "int64", "tag": "narrow"},
+        {"seed": 3, "rows": rng.choice([5, 60]), "cols": rng.randint(1, 5), "types": "mixed", "tag": "narrow"},
+        {"seed": 4, "rows": 20, "cols": 2, "types": "mixed", "dict": 1, "tag": "dict"},
+        {"seed": 5, "rows": 2, "cols": rng.choice([90, 200]), "types": "int64", "tag": "wide"},
+    ]
+    built = [(build_batch(sp), None) for sp in pool]
+    meas = [measure(b) for b, _ in built]
+    weights = [5, 4, 3, 1, 1]
+    size = H + rng.choice([40_000, 90_000, 200_000])
+    a = shm.ShmSegment.create(size)
+    b = shm.ShmSegment.attach(a.name, a.size, track=False) if two else None
+    handles = [a, b] if b is not None else [a]
+    case = {"kind": "session", "seed": seed}
+    ctx.case(case, nontrivial=True, tags=("k:session", f"handles:{len(handles)}"))
+    buf, total = a.buf, a.size
+    buf[H:total] = bytes([FILL]) * (total - H)
+    live: dict[int, tuple[int, bytes]] = {}  # offset -> (bytes in use, their content)
+    pend: list = []
+    failed = False
+    try:
+        n_ops = rng.choice([15, 30, 45])
+        script: list[tuple[str, int]] = []
+        while len(script) < n_ops:
+            r = rng.random()
+            h = rng.randrange(len(handles))
+            if r < 0.50:
+                script.append(("write", h))
+            elif r < 0.78:
+                script.append(("free", h))
+            elif r < 0.90:
+                script += [("free", h), ("write", h)]  # a turn of one side that leaves the entry count unchanged
+            elif r < 0.97:
+                script.append(("alloc", h))
+            else:
+                script.append(("reset", h))
+        for i, (what, h) in enumerate(script):
+            seg = handles[h]
+            pre = parse_header(buf)
+            pre_hdr = bytes(buf[: 24 + 16 * (len(pre) + 2)])
+            scase = {"kind": "session", "seed": seed, "step": i, "op": what, "handle": h}
+            res: Any
+            if what == "write":
+                k = rng.choices(range(len(pool)), weights)[0]
+                batch, m = built[k][0], meas[k]
+                op: dict = {"k": "dict", "data": len(m["data"])} if m["dict"] else {"k": "write", "rb": m["rb"], "chunks": m["sizes"]}
+                try:
+                    res = seg.allocate_and_write(batch)
+                except Exception as e:
+                    res = f"raised:{type(e).__name__}"
+                if isinstance(res, tuple):
+                    off, ln = res
+                    clash = [(o, l) for o, (l, _c) in live.items() if o < off + ln and off < o + l]
+                    if clash:
+                        report(ctx, scase, "C28:write-overlaps-live-batch", f"step {i}: batch written at ({off},{ln}) overlaps live batch {clash[0]}")
+                        failed = True
+                    live[off] = (ln, bytes(buf[off : off + ln]))
+                    if bytes(buf[off : off + ln]) != m["data"]:
+                        ctx.mismatch(scase, "stored = bytes handed to the sink", "stored bytes differ", "stored batch bytes: model vs implementation")
+                elif isinstance(res, str):
+                    report(ctx, scase, "C28:write-raised", f"step {i}: allocate_and_write {res}")
+                res = list(res) if isinstance(res, tuple) else res
+            elif what == "free":
+                if not live:
+                    continue
+                x = rng.choice(sorted(live))
+                op = {"k": "free", "x": x}
+                try:
+                    seg.free(x)
+                    res = "ok"
+                except ValueError:
+                    res = "ValueError"
+                    report(ctx, scase, "C28:free-of-live-batch-refused", f"step {i}: free({x}) of a live allocation raised ValueError (table {pre[:6]})")
+                    failed = True
+                live.pop(x, None)
+            elif what == "alloc":
+                g = [gp for gp in gaps(pre, total) if gp[1] > 0]
+                n = max(1, rng.choice(g)[1] // rng.choice([1, 2, 3]) + rng.choice([0, 0, 1, -1])) if g else 64
+                op = {"k": "alloc", "n": n}
+                res = seg.allocator.allocate(n)
+                if res is not None:
+                    pat = bytes(((res + j) * 131 % 251) + 1 for j in range(min(n, 64)))
+                    buf[res : res + len(pat)] = pat
+                    live[res] = (len(pat), pat)
+                if not inv_violations(pre, total):
+                    check_alloc(ctx, scase, pre, parse_header(buf), total, n, res)
+            else:
+                op = {"k": "reset"}
+                seg.reset()
+                res = "ok"
+                live.clear()
+            post = parse_header(buf)
+            ctx.case(scase, nontrivial=True, tags=(f"session:{what}:{'h' + str(h)}", f"session-entries:{_bucket(len(post))}"))
+            # ---- O ---------------------------------------------------------------------------------
+            check_inv(ctx, scase, post, total)
+            for o, (l, content) in live.items():
+                entry = [el for eo, el in post if eo == o]
+                if not entry or entry[0] < l:
+                    report(ctx, scase, "C28:live-batch-not-covered", f"step {i} ({what} via handle {h}): live batch ({o},{l}) is not inside a table entry "
+                           f"starting at its offset (entries there: {entry}; table {post[:6]})")
+                    failed = True
+                    break
+                if bytes(buf[o : o + l]) != content:
+                    report(ctx, scase, "C28:write-altered-live-batch" if what == "write" else "C28:op-altered-live-batch",
+                           f"step {i} ({what} via handle {h}): bytes of live batch ({o},{l}) changed")
+                    failed = True
+                    break
+            if not failed and sorted(o for o, _l in post) != sorted(live):
+                report(ctx, scase, "C28:table-not-live-set", f"step {i} ({what} via handle {h}): table offsets {[o for o, _ in post][:8]} are not the live "
+                       f"allocations {sorted(live)[:8]}")
+                failed = True
+            hl = 24 + 16 * max(len(pre) + 1, len(post))
+            pend.append((scase, pre_hdr, op, res, post, bytes(buf[:hl])))
+            if failed:
+                break  # everything after the first violation is a consequence
+        if ctx.driver is not None and pend:
+            reqs = [("C28.cstep", {"total": total, "header": hh.hex(), "op": op}) for _c, hh, op, _r, _p, _h in pend]
+            for (scase, _hh, _op, res, post, post_hdr), m in zip(pend, ctx.driver.batch(reqs)):
+                if m["out"] != res or [tuple(e) for e in m["table"]] != post:
+                    ctx.mismatch(scase, {"out": m["out"], "table": m["table"][:8]}, {"out": res, "table": post[:8]},
+                                 "segment session step: model (header bytes only) vs implementation")
+                    break
+                if m["header"][: 2 * len(post_hdr)] != post_hdr.hex():
+                    ctx.mismatch(scase, m["header"][:200], post_hdr.hex()[:200], "header bytes after a session step: model vs implementation")
+                    break
+    finally:
+        del buf
+        if b is not None:
+            b.close()
+        a.close()
+        a.unlink()
 
 
 SMALL = {"seed": 11, "rows": 4, "cols": 1, "types": "int64", "tag": "narrow"}
@@ -845,6 +996,8 @@ def pointer_roundtrip(ctx: Any, seeds: list[int]) -> None:
 
 # ------------------------------------------------------------------------------------------ run / replay
 
+SESSION_CORPUS = [1, 2, 3, 4, 5, 6, 7, 8]  # fixed seeds that run first
+
 CORPUS_WRITES = [
     ({"seed": 1, "rows": 3, "cols": 400, "types": "int64", "tag": "wide"}, "hole"),       # DESIGN §7.1 witness
     ({"seed": 1, "rows": 3, "cols": 400, "types": "int64", "tag": "wide"}, "tight-end"),
@@ -894,6 +1047,8 @@ def run(ctx: Any) -> None:
     near_limit(ctx, rng, pending)
     for _ in range(ctx.budget(2, 10)):
         limit_segment(ctx, rng.getrandbits(32))
+    for sd in SESSION_CORPUS + [rng.getrandbits(32) for _ in range(ctx.budget(60, 1500))]:
+        session_case(ctx, sd)
     codec_cases(ctx, rng, ctx.budget(300, 5000))
     sink_cases(ctx, rng, ctx.budget(500, 20000))
     # ---- real segments ------------------------------------------------------------------------------
@@ -939,6 +1094,8 @@ def replay(ctx: Any, case: dict) -> None:
                 ctx.mismatch(case, [g["res"] for g in got], log, "_ShmSink.write sequence: model vs implementation")
     elif kind == "limit-segment":
         limit_segment(ctx, case["seed"])
+    elif kind == "session":
+        session_case(ctx, case["seed"])
     elif kind == "pointer":
         pointer_roundtrip(ctx, [case["seed"]])
     elif kind == "stored":
